@@ -99,6 +99,15 @@ theorem taskStep_start (h : t.pc = .start) :
                   (if t.isTx then { t with ctx := true, enterAt := now } else t) } := by
   simp only [taskStep, h]
 
+theorem taskStep_start_tx (h : t.pc = .start) (htx : t.isTx = true) :
+    taskStep tid now store lock t =
+      { store := store, lock := lock, task := settle now t.prog { t with ctx := true, enterAt := now } } := by
+  simp only [taskStep, h, htx, if_true]
+
+theorem taskStep_start_plain (h : t.pc = .start) (htx : t.isTx = false) :
+    taskStep tid now store lock t = { store := store, lock := lock, task := settle now t.prog t } := by
+  simp [taskStep, h, htx]
+
 theorem taskStep_lockTry_free {k left : Nat} (h : t.pc = .lockTry k left)
     (hf : lockFree lock (lockKeyOf t.mode k) now = true) :
     taskStep tid now store lock t =
